@@ -23,7 +23,7 @@ def intake(ks):
     nosuite = "--no-suite" in ks
     ks = [k for k in ks if not k.startswith("--")]
     for k in ks:
-        base = "/tmp/refac/%s" % k
+        base = os.path.join(os.environ.get("REFAC_DIR", "/tmp/refac"), k)
         wt = base + "/wt"
         for r in sorted(os.listdir(base + "/out")):
             d = os.path.join(base, "out", r)
@@ -39,7 +39,7 @@ def intake(ks):
             sh("git checkout -q -- .", cwd=wt)
             if failed or comp:
                 print(k, r, "REJECTED: suite", failed[:3], "compile error" if comp else ""); continue
-            dst = os.path.join(RD, "%s-%s" % (k, r))
+            dst = os.path.join(RD, "%s%s-%s" % (os.environ.get("REFAC_WAVE", ""), k, r))
             os.makedirs(dst, exist_ok=True)
             shutil.copy(d + "/patch.diff", dst)
             meta = json.load(open(d + "/meta.json")) if os.path.exists(d + "/meta.json") else {}
